@@ -17,3 +17,10 @@ package ext
 //@   ensures len(slice) == 4 ==> result0.Is4() && result1
 //@   ensures len(slice) == 16 ==> result0.Is6() && result1
 //@   ensures len(slice) != 4 && len(slice) != 16 ==> !result1
+
+// logging helpers of the repository itself (stringer-generated / fmt-based String methods used only in log
+// calls): assumed free of side effects, not verified
+//@ trusted func github.com/osrg/gobgp/v4/pkg/packet/bgp.(FSMState).String
+//@   pure
+//@ trusted func github.com/osrg/gobgp/v4/pkg/server.(fsmStateReason).String
+//@   pure
